@@ -5,6 +5,7 @@
 import OidcModel.Proofs.Cfb
 import OidcModel.Proofs.Base64
 import OidcModel.Spec.C12
+import OidcModel.Generated.Codec
 namespace C12
 open Codec
 
@@ -158,5 +159,744 @@ example : lookup (merge [("iss", "\"op\"")] [("iss", "\"evil\""), ("x", "1")]) "
 example : marshalOK [("iss", "\"op\"")] [("iss", "\"evil\"")] [("iss", "\"evil\"")] = some "registered-claim-lost-or-overridden" := by decide
 example : audienceOK (.arr [.str "a", .int 1]) .panic = false ∧ decodeAudience (.arr [.str "a", .int 1]) = .err := by decide
 example : B64.decode (B64.encode [1, 2, 3, 250]) = some [1, 2, 3, 250] := B64.decode_encode _
+
+end C12
+
+/-! # Part 2: theorems about the REGENERATED codec (Generated/Codec.lean, namespace `GenCodec`)
+
+  factgen rewrites `GenCodec.*` from pkg/oidc/types.go, userinfo.go, util.go and pkg/crypto/crypto.go on every run; the
+  theorems below are about those definitions, for every document, every raw text and every oracle answer
+  (`Cdc.Oracles`: encoding/json on generic values, x/text/language, time.Parse, aes.NewCipher, crypto/rand).  The bridge
+  theorems tie them to the hand-written models of part 1 (`Codec.merge`, `Codec.decode…`, `Cfb.sealBytes/unsealBytes`). -/
+namespace C12
+open Codec Cdc
+
+def outR {α : Type} : Go.R α → Out α
+  | .ok v => .val v
+  | .error _ => .err
+
+/-! ### Locale -/
+
+theorem c12_locale_exact (now : Int) (o : Oracles) (l : Locale) (data : String) :
+    GenCodec.LocaleUnmarshalJSON now o l data =
+      if (Go.len data == (0 : Int) || data == "\"\"") = true then .ok l else
+      match o.jsonTag data l.tag with
+      | (t, .ok _) => .ok { tag := t }
+      | (_, .error e) => if e = "language.ValueError" then .ok { tag := Tag.zero } else .error e := by
+  unfold GenCodec.LocaleUnmarshalJSON
+  split
+  · rfl
+  · rcases h : o.jsonTag data l.tag with ⟨t, r⟩
+    cases r with
+    | ok u => rfl
+    | error e =>
+      simp only [GoX.errorsAs, beq_iff_eq]
+
+/-- a fully valid tag decodes to that tag -/
+theorem c12_locale_valid (now : Int) (o : Oracles) (l : Locale) (data : String) (t : Tag)
+    (hne : (Go.len data == (0 : Int) || data == "\"\"") = false) (h : o.jsonTag data l.tag = (t, .ok ())) :
+    GenCodec.LocaleUnmarshalJSON now o l data = .ok { tag := t } := by
+  rw [c12_locale_exact, hne, h]; rfl
+
+/-- a well-formed tag with an unknown subtag (`language.ValueError`) decodes to the zero value, without an error,
+    WHATEVER x/text left in the tag (`p`) -/
+theorem c12_locale_unknown (now : Int) (o : Oracles) (l : Locale) (data : String) (p : Tag)
+    (hne : (Go.len data == (0 : Int) || data == "\"\"") = false) (h : o.jsonTag data l.tag = (p, .error "language.ValueError")) :
+    GenCodec.LocaleUnmarshalJSON now o l data = .ok { tag := Tag.zero } := by
+  rw [c12_locale_exact, hne, h]; rfl
+
+/-- an ill-formed tag or a non-string (any other error of the json / language layer) is an error -/
+theorem c12_locale_illformed (now : Int) (o : Oracles) (l : Locale) (data : String) (p : Tag) (e : String)
+    (hne : (Go.len data == (0 : Int) || data == "\"\"") = false) (h : o.jsonTag data l.tag = (p, .error e)) (he : e ≠ "language.ValueError") :
+    GenCodec.LocaleUnmarshalJSON now o l data = .error e := by
+  rw [c12_locale_exact, hne, h]; simp [he]
+
+/-- how the json/x-text oracle's answer classifies the document's tag string -/
+def classOfJsonTag (r : Tag × Go.R Unit) : TagClass :=
+  match r with
+  | (t, .ok _) => .valid t
+  | (_, .error e) => if e = "language.ValueError" then .unknown else .illformed
+
+theorem c12_locale_monitor (now : Int) (o : Oracles) (data s : String) (hs : (s == "") = false)
+    (hne : (Go.len data == (0 : Int) || data == "\"\"") = false) :
+    localeOK (fun _ => classOfJsonTag (o.jsonTag data Tag.zero)) (.str s)
+      (outR ((GenCodec.LocaleUnmarshalJSON now o {} data).map (·.tag))) = true := by
+  rw [c12_locale_exact, hne]
+  simp only [Bool.false_eq_true, if_false]
+  rcases h : o.jsonTag data ({} : Locale).tag with ⟨t, r⟩
+  cases r with
+  | ok u => simp [localeOK, hs, classOfJsonTag, outR, Except.map]
+  | error e =>
+    by_cases he : e = "language.ValueError"
+    · simp [localeOK, hs, classOfJsonTag, outR, Except.map, he]
+    · simp [localeOK, hs, classOfJsonTag, outR, Except.map, he]
+
+
+/-! ### Locales -/
+
+/-- what `ParseLocales` keeps: entries `language.Parse` accepts without error and that are not `und` -/
+def keepTags (o : Oracles) (ss : List String) : List Tag :=
+  ss.filterMap fun s => if ((o.languageParse s).2.isNone && !(o.languageParse s).1.root) = true then some (o.languageParse s).1 else none
+
+theorem foldl_keep (o : Oracles) (ss : List String) (acc : List Tag) :
+    List.foldl (fun out locale =>
+      match o.languageParse locale with
+      | (tag, err) => if (GoX.errIsNil err && !tag.IsRoot) = true then Go.append out tag else out) acc ss = acc ++ keepTags o ss := by
+  induction ss generalizing acc with
+  | nil => simp [keepTags]
+  | cons s rest ih =>
+    rw [List.foldl_cons, ih]
+    rcases h : o.languageParse s with ⟨t, e⟩
+    simp only [keepTags, List.filterMap_cons, h, GoX.errIsNil, Tag.IsRoot, Go.append]
+    split <;> simp_all
+
+theorem c12_parseLocales (now : Int) (o : Oracles) (ss : List String) : GenCodec.ParseLocales now o ss = keepTags o ss := by
+  unfold GenCodec.ParseLocales GoX.foldList
+  have := foldl_keep o ss []
+  simpa using this
+
+theorem assertStrings_eq (l : List JVal) :
+    assertStrings l = if allStr l = true then .ok (strsOf l) else .error "error:cannot assert" := by
+  induction l with
+  | nil => rfl
+  | cons a rest ih =>
+    cases a <;> simp [assertStrings, allStr, strsOf, ih]
+    by_cases hr : allStr rest = true <;> simp [hr]
+
+/-- `Locales.UnmarshalJSON`, for every document and every answer of `language.Parse` -/
+theorem c12_locales_exact (now : Int) (o : Oracles) (l0 : List Tag) (data : String) :
+    GenCodec.LocalesUnmarshalJSON now o l0 data =
+      match o.jsonAny data with
+      | .error _ => .error "error:oidc locales: %w"
+      | .ok .null => .ok []
+      | .ok (.str v) => .ok (keepTags o (Cdc.split v " "))
+      | .ok (.arr v) => if allStr v = true then .ok (keepTags o (strsOf v)) else .error "error:oidc locales: %w"
+      | .ok _ => .error "error:oidc locales: unsupported type: %T" := by
+  unfold GenCodec.LocalesUnmarshalJSON
+  cases h : o.jsonAny data with
+  | error e => rfl
+  | ok doc =>
+    cases doc with
+    | arr v =>
+      simp only [assertStrings_eq, c12_parseLocales]
+      by_cases hv : allStr v = true <;> simp [hv]
+    | str v => simp only [c12_parseLocales]
+    | _ => rfl
+
+/-- how `language.Parse`'s answer classifies an entry -/
+def classOfParse (o : Oracles) (s : String) : TagClass :=
+  match o.languageParse s with
+  | (t, none) => .valid t
+  | (_, some e) => if e = "language.ValueError" then .unknown else .illformed
+
+theorem validTags_keep (o : Oracles) (ss : List String) : validTags (classOfParse o) ss = keepTags o ss := by
+  induction ss with
+  | nil => rfl
+  | cons s rest ih =>
+    simp only [validTags, keepTags, List.filterMap_cons] at ih ⊢
+    rw [ih]
+    rcases h : o.languageParse s with ⟨t, e⟩
+    cases e with
+    | none => cases hr : t.root <;> simp [classOfParse, h, hr]
+    | some e => by_cases he : e = "language.ValueError" <;> simp [classOfParse, h, he]
+
+theorem c12_locales_monitor (now : Int) (o : Oracles) (l0 : List Tag) (data : String) (doc : JVal) (h : o.jsonAny data = .ok doc) :
+    localesOK (classOfParse o) doc (outR (GenCodec.LocalesUnmarshalJSON now o l0 data)) = true := by
+  rw [c12_locales_exact, h]
+  cases doc with
+  | arr v => by_cases hv : allStr v = true <;> simp [localesOK, outR, hv, validTags_keep]
+  | _ => simp [localesOK, outR, validTags_keep]
+
+theorem c12_locales_text (now : Int) (o : Oracles) (l0 : List Tag) (text : String) :
+    GenCodec.LocalesUnmarshalText now o l0 text = .ok (keepTags o (Cdc.split text " ")) := by
+  simp [GenCodec.LocalesUnmarshalText, c12_parseLocales]
+
+
+/-! ### Audience -/
+
+theorem collect_gen {β : Type} (f : JVal → Sum β String) (E : β) (hs : ∀ s, f (.str s) = .inr s)
+    (hn : ∀ a, (match a with | .str _ => False | _ => True) → f a = .inl E) (l : List JVal) :
+    GoX.collect l f = if allStr l = true then .inr (strsOf l) else .inl E := by
+  induction l with
+  | nil => rfl
+  | cons a rest ih =>
+    rw [GoX.collect]
+    cases a with
+    | str s =>
+      rw [hs, ih]
+      by_cases hr : allStr rest = true <;> simp [hr, allStr, strsOf]
+    | _ => rw [hn _ trivial]; simp [allStr]
+
+/-- `Audience.UnmarshalJSON`, for every document: a string is the one-element list, an array of strings is that list,
+    an array with another member is an error, anything else leaves the value as it was -/
+theorem c12_audience_exact_gen (now : Int) (o : Oracles) (a0 : List String) (text : String) :
+    GenCodec.AudienceUnmarshalJSON now o a0 text =
+      match o.jsonAny text with
+      | .error e => .error e
+      | .ok (.str s) => .ok [s]
+      | .ok (.arr l) => if allStr l = true then .ok (strsOf l) else .error "error:oidc audience: unsupported member type: %T"
+      | .ok _ => .ok a0 := by
+  unfold GenCodec.AudienceUnmarshalJSON
+  cases h : o.jsonAny text with
+  | error e => rfl
+  | ok doc =>
+    cases doc with
+    | arr v =>
+      have hc := collect_gen (β := Go.R (List String))
+        (f := fun audience => match JVal.asString audience with
+          | (value, ok) => if (!ok) = true then Sum.inl (Except.error "error:oidc audience: unsupported member type: %T") else Sum.inr value)
+        (E := Except.error "error:oidc audience: unsupported member type: %T") (fun s => rfl)
+        (fun a ha => by cases a <;> first | exact False.elim ha | rfl) v
+      simp only [hc]
+      by_cases hv : allStr v = true <;> simp [hv]
+    | _ => rfl
+
+theorem c12_audience_monitor (now : Int) (o : Oracles) (text : String) (doc : JVal) (h : o.jsonAny text = .ok doc) :
+    audienceOKJ doc (outR (GenCodec.AudienceUnmarshalJSON now o [] text)) = true := by
+  rw [c12_audience_exact_gen, h]
+  cases doc with
+  | arr v => by_cases hv : allStr v = true <;> simp [audienceOKJ, outR, hv]
+  | _ => simp [audienceOKJ, outR]
+
+/-! ### Time -/
+
+theorem F64.decide_ge (a b : F64) : decide (a ≥ b) = F64.le b a := by
+  show decide (F64.le b a = true) = _
+  simp
+theorem F64.decide_lt (a b : F64) : decide (a < b) = F64.lt a b := by
+  show decide (F64.lt a b = true) = _
+  simp
+theorem F64.bne_self (a : F64) : (a != a) = a.nan := by
+  show (!(!a.nan && !a.nan && a.floor == a.floor && a.frac == a.frac)) = a.nan
+  cases a.nan <;> simp
+
+set_option linter.unusedSimpArgs false in
+theorem time_guard (x : F64) :
+    (x != x || decide (x ≥ ({ floor := GoX.shl 1 63 } : F64)) || decide (x < -({ floor := GoX.shl 1 63 } : F64))) = !F64.inInt64 x := by
+  have h63 : GoX.shl 1 63 = 9223372036854775808 := by decide
+  have hneg : -({ floor := GoX.shl 1 63 } : F64) = { floor := -9223372036854775808 } := by rw [h63]; rfl
+  rw [F64.decide_ge, F64.decide_lt, F64.bne_self, hneg, h63]
+  rcases x with ⟨fl, fr, nan⟩
+  have hmin : int64Min = -9223372036854775808 := rfl
+  have hmax : int64Max = 9223372036854775807 := rfl
+  rw [Bool.eq_iff_iff]
+  cases nan <;> cases fr <;>
+    simp only [F64.le, F64.lt, F64.inInt64, Bool.or_eq_true, Bool.and_eq_true, Bool.not_eq_true', decide_eq_true_eq, beq_iff_eq,
+      Bool.not_true, Bool.not_false, Bool.false_eq_true, decide_eq_false_iff_not, Bool.and_eq_false_imp, Bool.or_false, Bool.and_true,
+      and_true, true_and, false_and, and_false, or_false, false_or, or_true, true_iff, not_false_eq_true, implies_true, hmin, hmax] <;>
+    (first | omega | simp)
+/-- `Time.UnmarshalJSON`, for every document and every answer of `time.Parse` -/
+theorem c12_time_exact_gen (now : Int) (o : Oracles) (ts0 : Int) (data : String) :
+    GenCodec.TimeUnmarshalJSON now o ts0 data =
+      match o.jsonAny data with
+      | .error _ => .error "error:oidc.Time: %w"
+      | .ok (.num x) => if F64.inInt64 x = true then .ok x.toInt64 else .error "error:oidc.Time: value %v out of range"
+      | .ok (.str s) => (match o.timeParse s with | .ok t => .ok (Go.fromTime t) | .error _ => .error "error:oidc.Time: %w")
+      | .ok .null => .ok 0
+      | .ok _ => .error "error:oidc.Time: unable to parse type %T with value %v" := by
+  unfold GenCodec.TimeUnmarshalJSON
+  cases h : o.jsonAny data with
+  | error e => rfl
+  | ok doc =>
+    cases doc with
+    | num x =>
+      simp only [time_guard]
+      cases hx : F64.inInt64 x <;> simp
+    | str s => simp only []; cases o.timeParse s <;> rfl
+    | _ => rfl
+
+theorem c12_time_monitor (now : Int) (o : Oracles) (data : String) (doc : JVal) (h : o.jsonAny data = .ok doc) :
+    timeOKJ o.timeParse doc (outR (GenCodec.TimeUnmarshalJSON now o 0 data)) = true := by
+  rw [c12_time_exact_gen, h]
+  cases doc with
+  | num x => cases hx : F64.inInt64 x <;> simp [timeOKJ, outR, hx]
+  | str s => simp only []; cases ht : o.timeParse s <;> simp [timeOKJ, outR, ht]
+  | _ => simp [timeOKJ, outR]
+
+
+/-! ### Bool, SpaceDelimitedArray, Display -/
+
+/-- `Bool.UnmarshalJSON` looks at the RAW text of the value: exactly `true` and `"true"` set it -/
+theorem c12_bool_exact_gen (now : Int) (bs : Bool) (data : String) :
+    GenCodec.BoolUnmarshalJSON now bs data = .ok (if (data == "true" || data == "\"true\"") = true then true else bs) := by
+  unfold GenCodec.BoolUnmarshalJSON
+  split <;> rfl
+
+/-- the monitor holds whenever the value is written in its canonical spelling (`lit` is the raw text of `doc`):
+    `true` / `false` for booleans, and the string "true" spelled `"true"` (PARTIAL: see `c12_bool_escape_witness`) -/
+theorem c12_bool_monitor_partial (now : Int) (lit : String) (doc : JVal)
+    (hb : ∀ b, doc = .bool b → lit = (if b then "true" else "false"))
+    (hs : ∀ s, doc = .str s → ((lit == "\"true\"") = (s == "true") ∧ (lit == "true") = false))
+    (ho : (∀ b, doc ≠ .bool b) → (∀ s, doc ≠ .str s) → (lit == "true") = false ∧ (lit == "\"true\"") = false) :
+    boolOKJ doc (outR (GenCodec.BoolUnmarshalJSON now false lit)) = true := by
+  rw [c12_bool_exact_gen]
+  cases doc with
+  | bool b => rw [hb b rfl]; cases b <;> decide
+  | str s =>
+    obtain ⟨h1, h2⟩ := hs s rfl
+    simp only [boolOKJ, outR, h1, h2, Bool.false_or]
+    cases hst : (s == "true") <;> simp
+  | null => obtain ⟨h1, h2⟩ := ho (by intro b h; cases h) (by intro s h; cases h); simp [boolOKJ, outR, h1, h2]
+  | num x => obtain ⟨h1, h2⟩ := ho (by intro b h; cases h) (by intro s h; cases h); simp [boolOKJ, outR, h1, h2]
+  | arr l => obtain ⟨h1, h2⟩ := ho (by intro b h; cases h) (by intro s h; cases h); simp [boolOKJ, outR, h1, h2]
+  | obj l => obtain ⟨h1, h2⟩ := ho (by intro b h; cases h) (by intro s h; cases h); simp [boolOKJ, outR, h1, h2]
+
+/-- FINDING (F-C12-bool-escape): the JSON string "true" written with an escape (`"\u0074rue"`) is a documented form
+    (boolean-as-string) but decodes to `false`: the monitor fails on the model's own answer -/
+theorem c12_bool_escape_witness :
+    boolOKJ (.str "true") (outR (GenCodec.BoolUnmarshalJSON 0 false "\"\\u0074rue\"")) = false := by decide
+
+/-- `SpaceDelimitedArray.UnmarshalJSON`: whatever string encoding/json decodes (`""` stays for `null`), split on single spaces -/
+theorem c12_space_exact (now : Int) (o : Oracles) (s0 : List String) (data : String) :
+    GenCodec.SpaceDelimitedArrayUnmarshalJSON now o s0 data =
+      match o.jsonString data "" with
+      | .error e => .error e
+      | .ok str => .ok (Cdc.split str " ") := by
+  unfold GenCodec.SpaceDelimitedArrayUnmarshalJSON
+  simp only []
+  cases h : o.jsonString data "" <;> rfl
+
+/-- encoding/json's contract for a `string` destination, as far as the theorem needs it -/
+def jsonStringCoherent (o : Oracles) (data : String) (doc : JVal) : Prop :=
+  match doc with
+  | .str s => o.jsonString data "" = .ok s
+  | .null => o.jsonString data "" = .ok ""
+  | _ => ∃ e, o.jsonString data "" = .error e
+
+theorem c12_space_monitor (now : Int) (o : Oracles) (data : String) (doc : JVal) (h : jsonStringCoherent o data doc) :
+    spaceOK doc (outR (GenCodec.SpaceDelimitedArrayUnmarshalJSON now o [] data)) = true := by
+  rw [c12_space_exact]
+  cases doc with
+  | str s => simp only [jsonStringCoherent] at h; simp [h, spaceOK, outR]
+  | null =>
+    simp only [jsonStringCoherent] at h
+    have hsplit : Cdc.split "" " " = [""] := by decide
+    simp [h, spaceOK, outR, hsplit]
+  | bool b => obtain ⟨e, he⟩ := h; simp [he, spaceOK, outR]
+  | num x => obtain ⟨e, he⟩ := h; simp [he, spaceOK, outR]
+  | arr l => obtain ⟨e, he⟩ := h; simp [he, spaceOK, outR]
+  | obj l => obtain ⟨e, he⟩ := h; simp [he, spaceOK, outR]
+
+theorem c12_space_string (now : Int) (s : List String) : GenCodec.SpaceDelimitedArrayString now s = " ".intercalate s := rfl
+
+/-- `Display.UnmarshalText`: the four values of the (regenerated) constants are kept, anything else leaves the value as it was -/
+theorem c12_display_exact (now : Int) (d text : String) :
+    GenCodec.DisplayUnmarshalText now d text = .ok (if displayValues.contains text = true then text else d) := by
+  unfold GenCodec.DisplayUnmarshalText
+  simp only [GenCodec.DisplayPage, GenCodec.DisplayPopup, GenCodec.DisplayTouch, GenCodec.DisplayWAP, displayValues,
+    List.contains_cons, List.contains_nil, Bool.or_false]
+  by_cases h : (text == "page" || (text == "popup" || (text == "touch" || text == "wap"))) = true
+  · simp only [h, if_true]
+    have : (text == "page" || text == "popup" || text == "touch" || text == "wap") = true := by
+      simpa [Bool.or_assoc] using h
+    simp [this]
+  · have h' : (text == "page" || (text == "popup" || (text == "touch" || text == "wap"))) = false := by simpa using h
+    have : (text == "page" || text == "popup" || text == "touch" || text == "wap") = false := by
+      simpa [Bool.or_assoc] using h'
+    simp [h', this]
+
+theorem c12_display_monitor (now : Int) (text : String) :
+    displayOK text (outR (GenCodec.DisplayUnmarshalText now "" text)) = true := by
+  rw [c12_display_exact]
+  cases h : displayValues.contains text <;> simp only [displayOK, outR, h, if_true, if_false, beq_self_eq_true, Bool.false_eq_true]
+
+
+/-! ### unmarshalJSONMulti -/
+
+theorem first_none_iff {α β : Type} (l : List α) (f : α → Option β) : GoX.first l f = none ↔ ∀ x ∈ l, f x = none := by
+  induction l with
+  | nil => simp [GoX.first]
+  | cons x xs ih =>
+    rw [GoX.first]
+    cases h : f x with
+    | some r => simp [h]
+    | none => simp [h, ih]
+
+/-- `unmarshalJSONMulti` succeeds exactly when EVERY destination decodes; otherwise it returns an error
+    (a later destination that decodes does not hide an earlier failure) -/
+theorem c12_multi_exact (now : Int) (o : Oracles) (data : String) (ds : List Dst) :
+    GenCodec.unmarshalJSONMulti now o data ds =
+      if (ds.all fun d => (o.unmarshalInto data d).isOk) = true then .ok () else .error "error:oidc: %w into %T" := by
+  unfold GenCodec.unmarshalJSONMulti
+  induction ds with
+  | nil => rfl
+  | cons d rest ih =>
+    rw [GoX.first]
+    cases h : o.unmarshalInto data d with
+    | error e => simp [h, Except.isOk, Except.toBool]
+    | ok u =>
+      simp only [h, List.all_cons, Except.isOk, Except.toBool, Bool.true_and]
+      exact ih
+
+/-! ### mergeAndMarshalClaims -/
+
+theorem lookup_cons (x : String × String) (xs : Codec.Obj) (k : String) :
+    lookup (x :: xs) k = if (x.1 == k) = true then some x.2 else lookup xs k := by
+  unfold lookup
+  rw [List.find?_cons]
+  cases h : (x.1 == k) <;> simp
+
+theorem lookup_map_set (m : Codec.Obj) (k k' v : String) :
+    lookup (m.map fun kv => if (kv.1 == k) = true then (k, v) else kv) k' =
+      if k = k' then (if (m.any fun kv => kv.1 == k) = true then some v else none) else lookup m k' := by
+  induction m with
+  | nil => by_cases h : k = k' <;> simp [lookup, h]
+  | cons x xs ih =>
+    rw [List.map_cons, lookup_cons, ih, lookup_cons, List.any_cons]
+    by_cases hx : (x.1 == k) = true
+    · have hk : x.1 = k := by simpa using hx
+      by_cases h : k = k'
+      · subst h; simp [hk]
+      · have : (x.1 == k') = false := by rw [hk]; simpa using h
+        have hkk : (k == k') = false := by simpa using h
+        simp [hx, h, this, hkk]
+    · have hx' : (x.1 == k) = false := by simpa using hx
+      by_cases h : k = k'
+      · subst h; simp only [hx', Bool.false_eq_true, if_false, if_true, Bool.false_or]
+      · simp [hx', h]
+
+theorem lookup_none_of_any_false (m : Codec.Obj) (k : String) (h : (m.any fun kv => kv.1 == k) = false) : lookup m k = none := by
+  induction m with
+  | nil => rfl
+  | cons x xs ih =>
+    rw [List.any_cons, Bool.or_eq_false_iff] at h
+    rw [lookup_cons, h.1]
+    simpa using ih h.2
+
+theorem lookup_mapSet (m : Codec.Obj) (k k' v : String) :
+    lookup (GoX.mapSet m k v) k' = if k = k' then some v else lookup m k' := by
+  unfold GoX.mapSet
+  by_cases hany : (m.any fun kv => kv.1 == k) = true
+  · simp only [hany, if_true]
+    rw [lookup_map_set, hany]
+    simp
+  · have hany' : (m.any fun kv => kv.1 == k) = false := by rw [Bool.not_eq_true] at hany; exact hany
+    simp only [hany', Bool.false_eq_true, if_false]
+    rw [lookup_append]
+    by_cases h : k = k'
+    · subst h
+      rw [lookup_none_of_any_false m k hany']
+      simp [lookup]
+    · have hkk : (k == k') = false := by simpa using h
+      simp [h, lookup, hkk]
+
+/-- storing all members of `d` over `m`, one after the other (the keys of `d` are distinct, as in a JSON object / Go map) -/
+theorem lookup_foldKV_set (d : Codec.Obj) (hd : (keys d).Nodup) (m : Codec.Obj) (k : String) :
+    lookup (GoX.foldKV d m (fun m k v => GoX.mapSet m k v)) k = (lookup d k).or (lookup m k) := by
+  unfold GoX.foldKV
+  induction d generalizing m with
+  | nil => simp [lookup]
+  | cons x xs ih =>
+    have hx : x.1 ∉ keys xs := by simp [keys] at hd ⊢; exact hd.1
+    have hxs : (keys xs).Nodup := by simp [keys] at hd ⊢; exact hd.2
+    rw [List.foldl_cons, ih hxs, lookup_mapSet, lookup_cons]
+    by_cases h : x.1 = k
+    · subst h
+      have : lookup xs x.1 = none := by
+        apply lookup_none_of_not_key
+        simpa using hx
+      simp [this]
+    · have hb : (x.1 == k) = false := by simpa using h
+      simp [h, hb]
+
+
+/-- the map `mergeAndMarshalClaims` encodes when there are custom claims: the custom claims copied into a fresh map,
+    then the registered members stored OVER them -/
+def mergedMap (r custom : Codec.Obj) : Codec.Obj :=
+  GoX.foldKV r (GoX.foldKV custom ([] : Codec.Obj) (fun m k v => GoX.mapSet m k v)) (fun m k v => GoX.mapSet m k v)
+
+/-- `mergeAndMarshalClaims`, for every registered encoding (or encoding error), every custom map, every encoder answer -/
+theorem c12_merge_exact (now : Int) (o : Oracles) (reg : Reg) (custom : Codec.Obj) :
+    (GenCodec.mergeAndMarshalClaims now o reg custom).2 =
+      match reg.enc with
+      | .error _ => .error "error:oidc registered claims: %w"
+      | .ok r =>
+        if custom.isEmpty = true then .ok [r]
+        else if o.mapEncodable (mergedMap r custom) = true then .ok [mergedMap r custom] else .error "error:oidc custom claims: %w" := by
+  unfold GenCodec.mergeAndMarshalClaims
+  cases hr : reg.enc with
+  | error e => simp [bufEncode, Encodable.enc, hr]
+  | ok r =>
+    cases custom with
+    | nil => simp [bufEncode, Encodable.enc, hr, Go.len, Go.HasLen.len, Buf.empty, Buf.Bytes]
+    | cons c cs =>
+      have hpos : decide ((Go.len (c :: cs) : Int) > 0) = true := by
+        show decide ((((c :: cs).length : Nat) : Int) > 0) = true
+        simp only [List.length_cons, decide_eq_true_eq]; omega
+      simp only [bufEncode, Encodable.enc, hr, Buf.empty, List.nil_append, hpos, if_true, bufDecodeInto, List.isEmpty_cons, Bool.false_eq_true, if_false]
+      cases henc : o.mapEncodable (mergedMap r (c :: cs)) <;> simp [mergedMap, Buf.Bytes] at henc ⊢ <;> simp [henc]
+
+theorem lookup_mergedMap (r custom : Codec.Obj) (hr : (keys r).Nodup) (hc : (keys custom).Nodup) (k : String) :
+    lookup (mergedMap r custom) k = (lookup r k).or (lookup custom k) := by
+  unfold mergedMap
+  rw [lookup_foldKV_set r hr, lookup_foldKV_set custom hc]
+  simp [lookup]
+
+theorem lookup_isSome_of_key (o : Codec.Obj) (k : String) (h : (keys o).contains k = true) : (lookup o k).isSome = true := by
+  induction o with
+  | nil => simp [keys] at h
+  | cons x xs ih =>
+    rw [lookup_cons]
+    by_cases hx : (x.1 == k) = true
+    · simp [hx]
+    · have hx' : (x.1 == k) = false := by rw [Bool.not_eq_true] at hx; exact hx
+      simp only [hx', Bool.false_eq_true, if_false]
+      apply ih
+      simp only [keys, List.map_cons, List.contains_cons] at h ⊢
+      have hk : (k == x.1) = false := by rw [beq_eq_false_iff_ne] at hx' ⊢; exact fun e => hx' e.symm
+      simpa [hk] using h
+
+/-- BRIDGE: the regenerated merge and the hand-written `Codec.merge` agree on every key -/
+theorem c12_merge_bridge (r custom : Codec.Obj) (hr : (keys r).Nodup) (hc : (keys custom).Nodup) (k : String) :
+    lookup (if custom.isEmpty = true then r else mergedMap r custom) k = lookup (Codec.merge r custom) k := by
+  by_cases he : custom.isEmpty = true
+  · simp [he, Codec.merge]
+  · have he' : custom.isEmpty = false := by rw [Bool.not_eq_true] at he; exact he
+    simp only [he', Bool.false_eq_true, if_false]
+    rw [lookup_mergedMap r custom hr hc]
+    by_cases hk : (keys r).contains k = true
+    · rw [c12_registered_wins r custom k hk]
+      have := lookup_isSome_of_key r k hk
+      cases hl : lookup r k <;> simp_all
+    · have hk' : (keys r).contains k = false := by rw [Bool.not_eq_true] at hk; exact hk
+      rw [c12_custom_survives r custom k hk' he', lookup_none_of_not_key r k hk']
+      simp
+
+/-- registered claims win in the REGENERATED merge: whatever the custom map contains (colliding names included), every
+    registered key of the produced document has its registered value; the other custom claims survive -/
+theorem c12_registered_wins_gen (now : Int) (o : Oracles) (reg : Reg) (r custom : Codec.Obj) (hreg : reg.enc = .ok r)
+    (hr : (keys r).Nodup) (hc : (keys custom).Nodup) (henc : o.mapEncodable (mergedMap r custom) = true) :
+    ∃ m, (GenCodec.mergeAndMarshalClaims now o reg custom).2 = .ok [m] ∧
+      (∀ k, (keys r).contains k = true → lookup m k = lookup r k) ∧
+      (∀ k, (keys r).contains k = false → lookup m k = lookup custom k) := by
+  refine ⟨if custom.isEmpty = true then r else mergedMap r custom, ?_, ?_, ?_⟩
+  · rw [c12_merge_exact, hreg]
+    by_cases he : custom.isEmpty = true <;> simp [he, henc]
+  · intro k hk
+    rw [c12_merge_bridge r custom hr hc, c12_registered_wins r custom k hk]
+  · intro k hk
+    rw [c12_merge_bridge r custom hr hc]
+    by_cases he : custom.isEmpty = true
+    · have : custom = [] := by cases custom <;> simp_all
+      subst this
+      show lookup r k = lookup [] k
+      rw [lookup_none_of_not_key r k hk]
+      rfl
+    · have he' : custom.isEmpty = false := by rw [Bool.not_eq_true] at he; exact he
+      exact c12_custom_survives r custom k hk he'
+
+
+/-! ### Locale: decode → encode -/
+
+theorem c12_locale_marshal (now : Int) (o : Oracles) (l : Option Locale) :
+    GenCodec.LocaleMarshalJSON now o l = if (Locale.Tag l).IsRoot = true then .ok "null" else o.marshalTag (Locale.Tag l) := by
+  simp only [GenCodec.LocaleMarshalJSON]
+
+/-- decode → encode of a `locale` member: whatever text the document holds and whatever x/text answers, the registered
+    `locale` written back is `null` unless x/text accepted the tag completely - then it is the encoding of exactly that
+    tag; and it wins over a custom claim of the same name.  (An unknown subtag can therefore never turn into `de`, `en-US` …) -/
+theorem c12_locale_roundtrip (now : Int) (o : Oracles) (data : String) (loc : Locale) (txt : String)
+    (hdec : GenCodec.LocaleUnmarshalJSON now o {} data = .ok loc)
+    (hm : GenCodec.LocaleMarshalJSON now o (some loc) = .ok txt)
+    (others custom : Codec.Obj) (hno : (keys others).contains "locale" = false) (hnd : (keys others).Nodup) (hc : (keys custom).Nodup)
+    (henc : o.mapEncodable (mergedMap (others ++ [("locale", txt)]) custom) = true) :
+    (∃ m, (GenCodec.mergeAndMarshalClaims now o { enc := .ok (others ++ [("locale", txt)]) } custom).2 = .ok [m] ∧ lookup m "locale" = some txt) ∧
+    (txt = "null" ∨ ∃ t, o.jsonTag data Tag.zero = (t, .ok ()) ∧ t.root = false ∧ o.marshalTag t = .ok txt) := by
+  constructor
+  · have hkeys : (keys (others ++ [("locale", txt)])).Nodup := by
+      simp only [keys, List.map_append, List.map_cons, List.map_nil]
+      rw [List.nodup_append]
+      refine ⟨hnd, by simp, ?_⟩
+      intro a ha b hb hab
+      simp at hb
+      rw [hb] at hab
+      rw [hab] at ha
+      have : (keys others).contains "locale" = true := by simpa [keys] using ha
+      rw [hno] at this; cases this
+    obtain ⟨m, hm1, hm2, _⟩ := c12_registered_wins_gen now o { enc := .ok (others ++ [("locale", txt)]) } _ custom rfl hkeys hc henc
+    refine ⟨m, hm1, ?_⟩
+    rw [hm2 "locale" (by simp [keys]), lookup_append, lookup_none_of_not_key others "locale" hno]
+    simp [lookup]
+  · rw [c12_locale_marshal] at hm
+    rw [c12_locale_exact] at hdec
+    split at hdec
+    · cases hdec
+      left
+      simpa [Locale.Tag, Tag.IsRoot, Tag.zero] using hm.symm
+    · rcases hj : o.jsonTag data ({} : Locale).tag with ⟨t, r⟩
+      rw [hj] at hdec
+      cases r with
+      | ok u =>
+        cases hdec
+        by_cases hroot : t.root = true
+        · left; simpa [Locale.Tag, Tag.IsRoot, hroot] using hm.symm
+        · right
+          have hroot' : t.root = false := by rw [Bool.not_eq_true] at hroot; exact hroot
+          refine ⟨t, ?_, hroot', ?_⟩
+          · first | exact hj | rfl
+          · simpa [Locale.Tag, Tag.IsRoot, hroot'] using hm
+      | error e =>
+        simp only at hdec
+        split at hdec
+        · cases hdec
+          left
+          simpa [Locale.Tag, Tag.IsRoot, Tag.zero] using hm.symm
+        · cases hdec
+
+/-! ### AES sealing: the regenerated functions are the hand-written CFB sealing -/
+
+theorem decAux_length (E : Cfb.Block → Cfb.Block) (n : Nat) (hn : 0 < n) (hE : ∀ b, (E b).length = n) :
+    ∀ fuel prev c, c.length ≤ fuel → (Cfb.decAux E n fuel prev c).length = c.length := by
+  intro fuel
+  induction fuel with
+  | zero => intro prev c h; have : c = [] := by cases c <;> simp_all
+            subst this; rfl
+  | succ f ih =>
+    intro prev c h
+    unfold Cfb.decAux
+    by_cases hp : c.isEmpty
+    · simp [hp]; cases c <;> simp_all
+    · simp only [hp]
+      have h1 : (c.take n).length ≤ (E prev).length := by rw [hE]; simp; omega
+      have hpos : 0 < c.length := by cases c <;> simp_all
+      simp only [Bool.false_eq_true, if_false, List.length_append]
+      rw [Cfb.xorBytes_length _ _ h1, ih _ _ (by simp; omega)]
+      simp; omega
+
+/-- BRIDGE: `DecryptBytesAES` as regenerated = key check, then `Cfb.unsealBytes` (length guard `<`, iv = first block) -/
+theorem c12_decrypt_bridge (now : Int) (o : Oracles) (c key : Bytes) (E : Cfb.Block → Cfb.Block)
+    (hk : o.newCipher key = .ok E) (hE : ∀ b, (E b).length = 16) :
+    GenCodec.DecryptBytesAES now o c key =
+      match Cfb.unsealBytes E 16 c with
+      | none => .error "ErrCipherTextBlockSize"
+      | some p => .ok p := by
+  unfold GenCodec.DecryptBytesAES
+  simp only [hk, Cfb.unsealBytes]
+  have hlen : decide ((Go.len c : Int) < aesBlockSize) = decide (c.length < 16) := by
+    show decide (((c.length : Nat) : Int) < 16) = _
+    simp only [decide_eq_decide]; omega
+  rw [hlen]
+  by_cases hc : c.length < 16
+  · simp [hc]
+  · simp only [hc, decide_false, Bool.false_eq_true, if_false]
+    have h16 : (aesBlockSize).toNat = 16 := rfl
+    simp only [GoX.sliceTo, GoX.sliceFrom, h16, newCFBDecrypter, Stream.XORKeyStream, if_true]
+    have hl : (Cfb.dec E 16 (List.take 16 c) (List.drop 16 c)).length = (List.drop 16 c).length := by
+      unfold Cfb.dec
+      exact decAux_length E 16 (by decide) hE _ _ _ (Nat.le_refl _)
+    have hd : List.drop (Cfb.dec E 16 (List.take 16 c) (List.drop 16 c)).length (List.drop 16 c) = [] :=
+      List.drop_of_length_le (by rw [hl]; exact Nat.le_refl _)
+    simp [hd]
+
+theorem c12_decrypt_keyerr (now : Int) (o : Oracles) (c key : Bytes) (e : String) (hk : o.newCipher key = .error e) :
+    GenCodec.DecryptBytesAES now o c key = .error e := by
+  simp [GenCodec.DecryptBytesAES, hk]
+
+/-- BRIDGE: `EncryptBytesAES` as regenerated = key check, random iv, `Cfb.sealBytes` (iv ++ CFB(plain)) -/
+theorem c12_encrypt_bridge (now : Int) (o : Oracles) (plain key : Bytes) (E : Cfb.Block → Cfb.Block) (iv : Bytes)
+    (hk : o.newCipher key = .ok E) (hE : ∀ b, (E b).length = 16)
+    (hr : o.randRead (GoX.zeros 16) = .ok iv) (hiv : iv.length = 16) :
+    GenCodec.EncryptBytesAES now o plain key = .ok (Cfb.sealBytes E 16 iv plain) := by
+  unfold GenCodec.EncryptBytesAES
+  have h16 : (aesBlockSize).toNat = 16 := rfl
+  have hz : GoX.sliceTo (GoX.zeros (aesBlockSize + Go.len plain)) aesBlockSize = GoX.zeros 16 := by
+    show List.take 16 (List.replicate (((16 : Int) + ((plain.length : Nat) : Int)).toNat) (0 : UInt8)) = List.replicate 16 0
+    have : ((16 : Int) + ((plain.length : Nat) : Int)).toNat = 16 + plain.length := by omega
+    rw [this, List.take_replicate]; simp
+  simp only [hk, hz, hr]
+  have hlen : (Cfb.enc E 16 iv plain).length = plain.length := by
+    unfold Cfb.enc
+    exact Cfb.encAux_length E 16 (by decide) hE _ _ _ (Nat.le_refl _)
+  have hzl : (GoX.zeros (aesBlockSize + Go.len plain)).length = 16 + plain.length := by
+    show (List.replicate (((16 : Int) + ((plain.length : Nat) : Int)).toNat) (0 : UInt8)).length = _
+    simp; omega
+  generalize GoX.zeros (aesBlockSize + Go.len plain) = Z at hzl
+  simp only [GoX.setSliceTo, GoX.setSliceFrom, GoX.sliceFrom, h16, newCFBEncrypter, Stream.XORKeyStream, Cfb.sealBytes, Bool.false_eq_true, if_false]
+  have hR : (List.drop iv.length Z).length = plain.length := by simp [hzl, hiv]
+  rw [List.take_left' hiv, List.drop_left' hiv]
+  rw [List.drop_of_length_le (by omega)]
+  simp
+
+/-- sealing round trip of the REGENERATED functions: for every key the cipher accepts (block function of size 16), every
+    iv the random source delivers (16 bytes) and every plaintext of any length -/
+theorem c12_seal_roundtrip_gen (now : Int) (o : Oracles) (plain key : Bytes) (E : Cfb.Block → Cfb.Block) (iv : Bytes)
+    (hk : o.newCipher key = .ok E) (hE : ∀ b, (E b).length = 16)
+    (hr : o.randRead (GoX.zeros 16) = .ok iv) (hiv : iv.length = 16) :
+    ∃ sealed, GenCodec.EncryptAES now o plain key = .ok sealed ∧ GenCodec.DecryptAES now o sealed key = .ok plain := by
+  refine ⟨B64.encode (Cfb.sealBytes E 16 iv plain), ?_, ?_⟩
+  · simp [GenCodec.EncryptAES, c12_encrypt_bridge now o plain key E iv hk hE hr hiv, b64Encode]
+  · unfold GenCodec.DecryptAES
+    simp only [b64Decode, B64.decode_encode]
+    rw [c12_decrypt_bridge now o _ key E hk hE, Cfb.unseal_seal E 16 (by decide) hE iv hiv plain]
+
+
+/-! ### Bridges to the hand-written decoder models of `Model/Codec.lean` (on which `c12_audience_exact`, `c12_time_exact`,
+     `c12_bool_exact` are stated): the regenerated decoders compute the same answers -/
+
+def toAtom : JVal → JAtom
+  | .null => .null
+  | .bool b => .bool b
+  | .num x => .float x.toInt64 (F64.inInt64 x)
+  | .str s => .str s
+  | .arr _ => .obj
+  | .obj _ => .obj
+def toJIn : JVal → JIn
+  | .arr l => .arr (l.map toAtom)
+  | v => .atom (toAtom v)
+
+theorem all_isStr_map (l : List JVal) : (l.map toAtom).all JAtom.isStr = allStr l := by
+  induction l with
+  | nil => rfl
+  | cons a rest ih => cases a <;> simp [toAtom, JAtom.isStr, allStr, ih]
+
+theorem filterMap_strOf_map (l : List JVal) (h : allStr l = true) : (l.map toAtom).filterMap JAtom.strOf = strsOf l := by
+  induction l with
+  | nil => rfl
+  | cons a rest ih => cases a <;> simp_all [toAtom, JAtom.strOf, allStr, strsOf]
+
+theorem c12_audience_bridge (now : Int) (o : Oracles) (text : String) (doc : JVal) (h : o.jsonAny text = .ok doc) :
+    outR (GenCodec.AudienceUnmarshalJSON now o [] text) = decodeAudience (toJIn doc) := by
+  rw [c12_audience_exact_gen, h]
+  cases doc with
+  | arr l =>
+    simp only [toJIn, decodeAudience, all_isStr_map]
+    by_cases hl : allStr l = true
+    · simp [hl, outR, filterMap_strOf_map l hl]
+    · simp [hl, outR]
+  | _ => rfl
+
+theorem c12_time_bridge (now : Int) (o : Oracles) (data : String) (doc : JVal) (h : o.jsonAny data = .ok doc) :
+    outR (GenCodec.TimeUnmarshalJSON now o 0 data) =
+      decodeTime (fun s => match o.timeParse s with | .ok t => some (Go.fromTime t) | .error _ => none) (toJIn doc) := by
+  rw [c12_time_exact_gen, h]
+  cases doc with
+  | num x => simp only [toJIn, toAtom, decodeTime]; cases F64.inInt64 x <;> rfl
+  | str s => simp only [toJIn, toAtom, decodeTime]; cases o.timeParse s <;> rfl
+  | _ => rfl
+
+/-! ### non-vacuity: concrete documents and oracle answers -/
+
+/-- x/text's answer to `"de-AAAA"`: the partly parsed tag `de` next to a ValueError -/
+def oDeAAAA : Oracles := { jsonTag := fun _ _ => ({ s := "de", root := false }, .error "language.ValueError") }
+example : outR (GenCodec.LocaleUnmarshalJSON 0 oDeAAAA {} "\"de-AAAA\"") = .val { tag := Tag.zero } := by decide
+example : localeOK (fun _ => .unknown) (.str "de-AAAA") (.val { s := "de", root := false }) = false := by decide
+example : outR (GenCodec.LocaleUnmarshalJSON 0 { jsonTag := fun _ _ => ({ s := "en-US", root := false }, .ok ()) } {} "\"EN-us\"") = .val { tag := { s := "en-US", root := false } } := by decide
+example : outR (GenCodec.LocaleUnmarshalJSON 0 { jsonTag := fun _ t => (t, .error "language: tag is not well-formed") } {} "\"de-\"") = .err := by decide
+example : outR (GenCodec.LocaleUnmarshalJSON 0 {} {} "\"\"") = .val {} := by decide
+/-- `["de-AAAA", "en-US", "x"]`: the unknown and the ill-formed entry are skipped -/
+def oLocales : Oracles :=
+  { jsonAny := fun _ => .ok (.arr [.str "de-AAAA", .str "en-US", .str "x"]),
+    languageParse := fun s => if s == "en-US" then ({ s := "en-US", root := false }, none)
+      else if s == "de-AAAA" then ({ s := "de", root := false }, some "language.ValueError") else (Tag.zero, some "language: tag is not well-formed") }
+example : outR (GenCodec.LocalesUnmarshalJSON 0 oLocales [] "…") = .val [{ s := "en-US", root := false }] := by decide
+example : outR (GenCodec.LocalesUnmarshalJSON 0 { jsonAny := fun _ => .ok (.arr [.str "de", .num { floor := 1 }]) } [] "…") = .err := by decide
+example : outR (GenCodec.AudienceUnmarshalJSON 0 { jsonAny := fun _ => .ok (.arr [.str "a", .num { floor := 1 }]) } [] "…") = .err := by decide
+example : outR (GenCodec.TimeUnmarshalJSON 0 { jsonAny := fun _ => .ok (.num { floor := -2, frac := true }) } 0 "-1.5") = .val (-1) := by decide
+example : outR (GenCodec.TimeUnmarshalJSON 0 { jsonAny := fun _ => .ok (.num { floor := 9223372036854775808 }) } 0 "9223372036854775808") = .err := by decide
+example : outR (GenCodec.unmarshalJSONMulti 0 { unmarshalInto := fun _ d => if d == 0 then .error "json" else .ok () } "{}" [0, 1]) = .err := by decide
+example : outR (GenCodec.mergeAndMarshalClaims 0 {} { enc := .ok [("iss", "\"op\""), ("locale", "null")] } [("locale", "\"de-AAAA\""), ("x", "1")]).2
+    = .val [[("locale", "null"), ("x", "1"), ("iss", "\"op\"")]] := by decide
+example : outR (GenCodec.DecryptBytesAES 0 { newCipher := fun _ => .ok (fun _ => List.replicate 16 0) } (List.replicate 15 7) []) = .err := by decide
+example : outR (GenCodec.DecryptBytesAES 0 { newCipher := fun _ => .ok (fun _ => List.replicate 16 0) } (List.replicate 16 7) []) = .val [] := by decide
 
 end C12
